@@ -4,7 +4,7 @@
    implementation (Model/Oracle2.v).  ./vp ties implementation = Step = SubjK on every history run. *)
 From Coq Require Import List ZArith Bool Arith.
 From RX Require Import Val Syntax Step Oracle Oracle2 SubjK.
-From RXP Require Import SubjKRef SubjKReplay SubjKBehavior.
+From RXP Require Import SubjKRef SubjKReplay SubjKBehavior SubjKAsync.
 Import ListNotations.
 
 (* Plain Subject, EVERY call history (any number of observers, each subscribing once; any values; any
@@ -65,6 +65,22 @@ Check C10_behavior_refines_reference :
   let r := fold_left (sref_step KBehavior) script (sref0 (Some init)) in
   (forall k, sk_logs s k = r_logs r k) /\ map snd (sk_obs s) = r_reg r /\ r_term r = stored_term_b s.
 Print Assumptions C10_behavior_refines_reference.
+
+(* AsyncSubject (= subject.observable().take_last(1)), EVERY call history - use after the terminal included, an
+   AsyncSubject keeps no memory of it: nothing is delivered until the subject completes; then every registered observer
+   gets the last item pushed since it joined, then complete; on error the error alone. *)
+Theorem C10_async_refines_reference :
+  forall script, plain_history script = true -> NoDup (sub_handles script) ->
+  let s := sk_run KAsync None script in
+  let r := fold_left (sref_step KAsync) script (sref0 None) in
+  (forall k, sk_logs s k = r_logs r k) /\ map snd (sk_obs s) = r_reg r.
+Proof. exact async_refines_reference. Qed.
+Check C10_async_refines_reference :
+  forall script, plain_history script = true -> NoDup (sub_handles script) ->
+  let s := sk_run KAsync None script in
+  let r := fold_left (sref_step KAsync) script (sref0 None) in
+  (forall k, sk_logs s k = r_logs r k) /\ map snd (sk_obs s) = r_reg r.
+Print Assumptions C10_async_refines_reference.
 
 (* BehaviorSubject: after ANY history without a terminal the cell handed to a new subscriber holds the
    latest value pushed (the initial one if none). *)
